@@ -80,6 +80,7 @@ type Run struct {
 	seenHosts map[string]bool // hostnames the routing probes have met so far: a removed host is probed too
 	// change descriptions the watchers held when a batch was taken / that reached the services (C14, L2)
 	batchTaken, batchDelivered map[string]int
+	notifyPending              map[string]bool // accepted events (as change descriptions) that no batch taken so far holds
 	bmu                        sync.Mutex
 	freshTwice                 bool // the next fresh pipelines run two full syncs
 	step                       int
@@ -171,7 +172,7 @@ func (r *Run) dnsLookupIP(host string) ([]net.IP, error) {
 
 // newRun prepares the run state (inside the bubble).
 func newRun(cfg *RunConfig, tape *rt.Tape, traceOn bool) *Run {
-	r := &Run{Cfg: cfg, tape: tape, traceOn: traceOn, probes: map[string]int{}, prefix: "/sim/main", batchTaken: map[string]int{}, batchDelivered: map[string]int{},
+	r := &Run{Cfg: cfg, tape: tape, traceOn: traceOn, probes: map[string]int{}, prefix: "/sim/main", batchTaken: map[string]int{}, batchDelivered: map[string]int{}, notifyPending: map[string]bool{},
 		dns: map[string][]string{}, dnsFail: map[string]bool{}, nfHashes: map[string]bool{}}
 	r.simStart = time.Now()
 	r.scheme = newScheme()
